@@ -417,6 +417,15 @@ func (o *oracleRun) run(nBlocks int) {
 				case x < 66:
 					pc.class = "several-det-ids"
 					msg.Prices[0].Prices = append(msg.Prices[0].Prices, &oracletypes.PriceTimeDetID{Price: price, Decimal: f.dec, Timestamp: o.ts(0), DetID: fmt.Sprint(999 + based)})
+					switch o.r.Intn(4) {
+					case 0:
+						// only a later entry is malformed: every reported price must pass the checks, not just the first
+						pc.class = "several-det-ids|later-wrong-decimal"
+						msg.Prices[0].Prices[1].Decimal = f.dec + 1
+					case 1:
+						pc.class = "several-det-ids|later-future-timestamp"
+						msg.Prices[0].Prices[1].Timestamp = o.ts(time.Duration(6+o.r.Intn(100)) * time.Second)
+					}
 				case x < 70:
 					pc.class = "wrong-base-block"
 					msg.BasedBlock = based + uint64(1+o.r.Intn(2))
